@@ -119,3 +119,62 @@ def register_sequences(src):
         Case('ok', 'return', lambda pre: t.TRUE, ensures=_seq_ok, rkind=rk_dyn, modifies=['stream']),
         Case('fails', 'raise', lambda pre: t.TRUE, ensures=generic_raise, modifies=['stream']),
     ], loops={'for sc in self.subcons': LoopSpec(_seq_inv, tags=T, modifies=())}, tags=T)
+
+
+# ================================================================================================ FocusedSeq._parse
+# The members are parsed like a Sequence's (same specification step, a StopFieldError propagates); the value returned is the
+# value of the member whose name the selector gives.  Hypotheses: the selector names a member; member names are pairwise distinct.
+from .unions import _names_distinct  # noqa
+from .classes import _focused_inv  # noqa
+prelude.declare_fun('member_index', [t.INT, t.VAL], t.INT)
+
+
+def _foc_inv(L):
+    pre = L.extra['pre']
+    o0 = pre.obj('stream')
+    base = list(_focused_inv(L))
+    if o0.model == 'adv':
+        return base
+    sl = pre.self.fields['subcons'].ident
+    LE = L.entry
+    o = L.obj('stream')
+    F = qfold(LE, o0, sl, L.k)
+    hints = [_qunfold(LE, o0, sl, L.k)] if L.k.op != 'int' else []
+    out = base + [('state-after-k-members-is-the-specification-fold', t.and_(ps('ps_ok', F), t.not_(ps('ps_stop', F)), t.eq(o.pos, ps('ps_pos', F)), t.eq(L.st.ghost['H'], ps('ps_H', F)), t.eq(L.st.ghost['D'], ps('ps_D', F))), None, hints),
+                  ('buffer-unchanged', t.and_(t.eq(o.buf, o0.buf), t.eq(o.len, o0.len))),
+                  ('scope-keeps-its-identity', t.eq(_addr(L.st, 'context'), _addr(LE, 'context')))]
+    pbf = L['parsebuildfrom']
+    if isinstance(pbf, VDyn):
+        w = t.app('member_index', t.INT, sl, pbf.t)
+        fr = L.st.env.get('finalret')
+        if fr is not None and not isinstance(fr, Unbound):
+            val = fr.value if isinstance(fr, MaybeBound) else fr
+            km = t.sub(L.k, t.ONE)
+            nm = t.app('sc_name', t.VAL, t.app('sl_at', t.INT, sl, km))
+            inst = t.implies(t.and_(t.ge(km, t.ZERO), t.app('truthy', t.BOOL, nm)), t.eq(t.app('member_index', t.INT, sl, nm), km))      # instance of 'names are pairwise distinct' (a precondition)
+            out.append(('finalret-is-the-value-of-the-selected-member-once-it-was-parsed', t.implies(t.gt(L.k, w), t.eq(L.eng.to_dyn(val, L.st), qval(LE, o0, sl, w))), None, [inst] if L.k.op != 'int' else []))
+    return out
+
+
+def _foc_ok(pre, post):
+    o0, o2 = pre.obj('stream'), post.obj('stream')
+    sl = pre.self.fields['subcons'].ident
+    n = t.app('sl_len', t.INT, sl)
+    LE = _le(post)
+    F = qfold(LE, o0, sl, n)
+    p = pre.self.fields['parsebuildfrom']
+    iface = post.eng.models.interface
+    c1 = _addr(LE, 'context')
+    sel = t.ite(p.callable_t, t.app('ev_val', t.VAL, p.ident, LE.ghost['H'], LE.ghost['D'], c1), post.eng.to_dyn(iface.param_const(post.eng, p, post.st), post.st))
+    w = t.app('member_index', t.INT, sl, sel)
+    return [('members-parsed-in-declaration-order-each-from-the-end-of-the-previous', t.and_(ps('ps_ok', F), t.not_(ps('ps_stop', F)), t.eq(o2.pos, ps('ps_pos', F))), T),
+            ('returns-the-value-of-the-member-the-selector-names', t.eq(post.eng.to_dyn(post.result, post.st), qval(LE, o0, sl, w)), T),
+            ('buffer-unchanged', buffer_same(pre, post), ('C17', 'C08'))]
+
+
+def register_focused(src):
+    fcontract('FocusedSeq', '_parse', [
+        Case('ok', 'return', lambda pre: t.TRUE, ensures=_foc_ok, rkind=rk_dyn, modifies=['stream']),
+        Case('fails', 'raise', lambda pre: t.TRUE, ensures=generic_raise, modifies=['stream']),
+    ], loops={'for (i, sc) in enumerate(self.subcons)': LoopSpec(_foc_inv, tags=T + ('C06',), modifies=())}, tags=T,
+        requires=lambda pre: [('member-names-are-pairwise-distinct', _names_distinct(pre.self.fields['subcons'].ident, t.app('sl_len', t.INT, pre.self.fields['subcons'].ident)))])
